@@ -106,6 +106,11 @@ pub struct KnownFinding {
     pub what: String,
     #[serde(default)]
     pub commit: Option<String>,
+    /// if non-empty, only violations on these inputs (program / scenario names: the part of the
+    /// signature after the prefix) are this finding; a violation of the same class on any other
+    /// input is reported as new
+    #[serde(default)]
+    pub inputs: Vec<String>,
 }
 
 pub fn load_known() -> Vec<KnownFinding> {
@@ -140,7 +145,15 @@ pub fn finish(rep: Report<'_>, stats: &Stats, viols: &[Viol], wall_s: f64) -> i3
     for v in viols {
         let k = known
             .iter()
-            .find(|k| k.status == "open" && k.property == v.property && v.signature.starts_with(&k.signature_prefix));
+            .find(|k| {
+                k.status == "open"
+                    && k.property == v.property
+                    && v.signature.starts_with(&k.signature_prefix)
+                    && (k.inputs.is_empty() || {
+                        let rest = v.signature[k.signature_prefix.len()..].trim_start_matches(':');
+                        k.inputs.iter().any(|i| i == rest)
+                    })
+            });
         match k {
             Some(k) => *matched.entry(format!("{} {}", k.signature_prefix, k.what)).or_insert(0) += 1,
             None => unknown.push(v),
@@ -159,6 +172,13 @@ pub fn finish(rep: Report<'_>, stats: &Stats, viols: &[Viol], wall_s: f64) -> i3
             println!("  what: {}", v.what);
             paths.push(p.display().to_string());
         }
+    }
+    if let Ok(path) = std::env::var("MC_SIG_DUMP") {
+        // development aid: all violation signatures of this run (never read by the checks)
+        let mut all: Vec<String> = viols.iter().map(|v| v.signature.clone()).collect();
+        all.sort();
+        all.dedup();
+        let _ = std::fs::write(path, all.join("\n"));
     }
     let seed: i64 = std::env::var("VERIF_SEED").ok().and_then(|s| s.parse().ok()).unwrap_or(0);
     let mut samples = stats.samples.clone();
